@@ -242,7 +242,12 @@ Definition is_pointer (c : ctx) (req def : bool) : bool :=
 
 (* recurseValidationCode: contexts used for array elements and for map keys / values *)
 Definition elem_ctx (c : ctx) (e : att) : ctx := if c_ptr c && is_prim e then set_ptr c false else c.
-Definition map_ctx (c : ctx) : ctx := set_ptr c false.
+(* map keys / values: primitives, arrays and maps are validated with Pointer = false; user
+   types (and inline objects) keep the context when the source says so (map_keeps_user_ctx,
+   extracted by the translator: the repaired recurseValidationCode), else everything loses it *)
+Definition map_ctx (c : ctx) (a : att) : ctx :=
+  if map_keeps_user_ctx then match a with AUser _ | AObject _ => c | _ => set_ptr c false end
+  else set_ptr c false.
 
 (* generatedRequiredValidation: is the required test emitted for this attribute? *)
 Definition req_emitted (E : env) (c : ctx) (a : att) : bool :=
@@ -372,8 +377,8 @@ Fixpoint goa_viol (E : env) (call : nat -> value -> list viol) (c : ctx) (a : at
     | AMap vl k e =>
         kw_viols_goa (kws_goa vl) v p ++
         match v with
-        | VMap l => flat_map (fun kv => goa_viol E call (map_ctx c) k (fst kv) (p ++ [PKey]) ++
-                                        goa_viol E call (map_ctx c) e (snd kv) (p ++ [PVal])) l
+        | VMap l => flat_map (fun kv => goa_viol E call (map_ctx c k) k (fst kv) (p ++ [PKey]) ++
+                                        goa_viol E call (map_ctx c e) e (snd kv) (p ++ [PVal])) l
         | _ => []
         end
     | AObject fs =>
@@ -480,8 +485,8 @@ Fixpoint gen (E : env) (c : ctx) (req : bool) (a : att) (p : path) {struct a} : 
       Seq own (if is_empty body then Skip else RangeArr body)
   | AMap vl k e =>
       let own := own_code (is_pointer c req false) false false vl p in
-      let ck := wrap E (map_ctx c) true k (gen E (map_ctx c) true k (p ++ [PKey])) in
-      let cv := wrap E (map_ctx c) true e (gen E (map_ctx c) true e (p ++ [PVal])) in
+      let ck := wrap E (map_ctx c k) true k (gen E (map_ctx c k) true k (p ++ [PKey])) in
+      let cv := wrap E (map_ctx c e) true e (gen E (map_ctx c e) true e (p ++ [PVal])) in
       Seq own (if is_empty ck && is_empty cv then Skip else RangeMap ck cv)
   | AObject fs =>
       let reqs := (fix reqs (i : nat) (fs : list (nat * bool * att)) : code :=
@@ -585,7 +590,7 @@ Inductive wt : ctx -> bool -> att -> value -> Prop :=
 | wt_alias c req id v : prim_value (fst (alias_def E id)) v = true ->
     native_nilable (fst (alias_def E id)) = false -> wt c req (AAlias id) v
 | wt_arr c req vl e l : (forall x, In x l -> wt (elem_ctx c e) true e x) -> wt c req (AArray vl e) (VArr l)
-| wt_map c req vl k e l : (forall kv, In kv l -> wt (map_ctx c) true k (fst kv) /\ wt (map_ctx c) true e (snd kv)) ->
+| wt_map c req vl k e l : (forall kv, In kv l -> wt (map_ctx c k) true k (fst kv) /\ wt (map_ctx c e) true e (snd kv)) ->
     wt c req (AMap vl k e) (VMap l)
 | wt_obj c req fs l : wt_fields c fs l -> wt c req (AObject fs) (VObj l)
 | wt_user c req id v : v <> VNull -> wt fc true (user_body E id) v -> wt c req (AUser id) v
